@@ -28,7 +28,9 @@ pub async fn run_conn_h2(
         [10, 0, 0, 1 + (plan.peer_port % 200) as u8],
         plan.peer_port,
     ));
-    let end = match net.connect(addr, peer, plan.c2s.clone(), plan.s2c.clone()) {
+    // HTTP/2 response byte counts depend on the wall clock (HPACK-compressed
+    // date header), so nothing may depend on them: see WirePolicy::opaque.
+    let end = match net.connect(addr, peer, plan.c2s.clone(), crate::net::WirePolicy::opaque()) {
         Ok(e) => e,
         Err(_) => {
             obs.refused = true;
